@@ -11,7 +11,12 @@ for sid in sorted(os.listdir(os.path.join(HERE, 'seeded'))):
     head = next((t.strip() for t in txt if len(t.strip()) > 15), '')[:150]
     own = m['checks_run'].get(m['property'], [])
     keys = sorted({k.split('/')[1] if '/' in k else k for o in own for k in o['keys']})[:3]
-    rows.append(f"| {sid} | {', '.join(files)} | {head} | {', '.join(m['caught_by'])} ({'; '.join(keys)}) |")
+    caught = f"{', '.join(m['caught_by'])} ({'; '.join(keys)})"
+    if m['property'] not in m['caught_by']:
+        why = m.get('expected_miss_reason') or m.get('missed_note') or ''
+        caught = ('own check silent; ' + (f"caught by {', '.join(m['caught_by'])}; " if m['caught_by'] else '') +
+                  ('recorded reason: ' if m.get('expected_miss_reason') else 'MISSED (blind spot): ') + re.sub(r'[|\n]', ' ', why)[:300])
+    rows.append(f"| {sid} | {', '.join(files)} | {head} | {caught} |")
 print('| seeded | file | mechanism (first line of the author\'s note) | caught by (violation classes of the own check) |')
 print('|---|---|---|---|')
 print('\n'.join(rows))
